@@ -1354,9 +1354,8 @@ class Store:
             for key, topology in insertion['topology'].items()]
         topology_updates.extend(topology_paths)
 
-        flow_paths = [
-            (root + (key,), flow)
-            for key, flow in insertion.get('flow', {}).items()]
+        # (the flow may be nested, like the steps it belongs to)
+        flow_paths = dict_to_paths(root, insertion.get('flow', {}))
         flow_updates.extend(flow_paths)
 
         self._apply_subschema_path(path)
